@@ -174,11 +174,12 @@ def body_collection(ctx, case):
                 except KeyError:
                     pass
         elif op == "replace":
-            its = [new_item(), new_item()]
+            its = [new_item() for _ in range(ctx.choice(f"nrep{k}", 3))]       # 0, 1 or 2 new members
             d = {f"x{i}": it for i, it in enumerate(its)}
-            ctx.region("replace_equal_names", its[0].name == its[1].name)
             col.replace(d)
             model = list(its)
+            if not its:
+                ctx.tag("replace with an empty mapping")
         elif op == "set_sort_key":
             which = ctx.choice(f"sk{k}", 3)
             if which == 0:
@@ -227,9 +228,9 @@ FAMILIES = [
         name="collection_ops", cases=cases_collection, body=body_collection,
         functions=["StreamCollection.add", "add_many", "replace", "remove", "set_sort_key", "get_index", "_ensure_sorted", "__iter__", "__add__", "__len__", "__getitem__", "__contains__"],
         files=["OpenPinch/classes/stream_collection.py"],
-        bounds="every sequence of 1-2 (thorough: 3) operations chosen by the solver from {add, add with key, add_many(2), remove, replace(2), set_sort_key(3 forms), +}, each followed by len / full iteration / get_index; "
+        bounds="every sequence of 1-2 (thorough: 3) operations chosen by the solver from {add, add with key, add_many(2), remove, replace(0-2), set_sort_key(3 forms), +}, each followed by len / full iteration / get_index; "
                "member names from the clash-prone pool {S, S_1, T} (finite-domain symbolic), sort attributes z3 reals in [0,100]",
         assumptions=["names range over a 3-element pool (not unbounded strings)"],
-        shim_modules=["OpenPinch.classes.stream_collection"], reach=["op:add", "op:replace", "op:concat", "op:set_sort_key"], split_paths=200, validate_every=10,
+        shim_modules=["OpenPinch.classes.stream_collection"], reach=["op:add", "op:replace", "op:concat", "op:set_sort_key", "replace with an empty mapping"], split_paths=200, validate_every=10,
     ),
 ]
